@@ -29,6 +29,8 @@ func c12Shapes() []c08Shape {
 		{Iface: "eth0", TS: tA1, Recs: mixed, Drops: 1},
 		{Iface: "eth0", TS: tA2, Recs: sc(mixed[2:7], 2), Drops: 2},
 		{Iface: "eth0", TS: dayA + 900, Recs: sc(v4, 11), Drops: 16},
+		{Iface: "eth0", TS: dayA + 1200, Recs: nil, Drops: 256},           // a block without flows but with drops
+		{Iface: "eth0", TS: dayB - 150, Recs: sc(v6[:2], 17), Drops: 512}, // inside the last write-out interval of the day
 		{Iface: "eth0", TS: tB1, Recs: sc(mixed[4:], 3), Drops: 32},
 		{Iface: "eth0", TS: dayB + 600, Recs: sc(v6, 13), Drops: 64},
 		{Iface: "eth0", TS: tD1, Recs: sc(mixed[:6], 5), Drops: 128},
@@ -43,7 +45,8 @@ func c12Shapes() []c08Shape {
 	return []c08Shape{{"c12-rich", rich}, {"c12-single-block", single}, {"c12-one-day", oneDay}}
 }
 
-var c12Points = []int64{tA1 - 301, tA1 - 1, tA1, tA1 + 1, tA1 + 150, tA2, tA2 + 1, dayA + 899, dayA + 900, dayA + 901, dayB - 1, dayB, tB1, tB1 + 1,
+var c12Points = []int64{tA1 - 301, tA1 - 1, tA1, tA1 + 1, tA1 + 150, tA2, tA2 + 1, dayA + 899, dayA + 900, dayA + 901, dayA + 1199, dayA + 1200, dayA + 1201,
+	dayB - 301, dayB - 151, dayB - 150, dayB - 149, dayB - 1, dayB, tB1, tB1 + 1,
 	dayB + 600, dayB + 601, tD1 - 1, tD1, tD1 + 1, tD1 + 1000000}
 
 func c12Run(x *explore.Ctx) {
@@ -154,7 +157,7 @@ var _ = encoders.EncoderTypeLZ4
 func init() {
 	register("C12", &explore.Scenario{
 		ID: "C12", Name: "interface summary vs stored blocks and vs query totals", Level: "exploration",
-		Rule:     "cases = 3 databases (6 blocks over 3 days incl. month change with per-block drops; single block; 3 blocks in one day) x ALL pairs first<=last over 20 boundary instants (before data, block-1s, on block, block+1s, between blocks, day boundaries, after data). Oracle 1: ReadMetadata flows v4/v6, drops and four counters = sum over reference blocks with first<=ts<=last; oracle 2: counters = Summary.Totals of a real query over the same interface and range. non-trivial = ranges containing >=1 block, distinct by (db, first, last)",
+		Rule:     "cases = 3 databases (8 blocks over 3 days incl. month change with per-block drops, one block without flows but with drops, one block in the last five minutes of a day; single block; 3 blocks in one day) x ALL pairs first<=last over 27 boundary instants (before data, block-1s, on block, block+1s, between blocks, day boundaries, after data). Oracle 1: ReadMetadata flows v4/v6, drops and four counters = sum over reference blocks with first<=ts<=last; oracle 2: counters = Summary.Totals of a real query over the same interface and range. non-trivial = ranges containing >=1 block, distinct by (db, first, last)",
 		Cases:    func(t string) int { return 3 },
 		Bound:    func(t string) int { return 0 },
 		Run:      c12Run,
